@@ -127,21 +127,21 @@ Proof.
   intros cap s t Hr Hc. pose proof (reachable_inv keqb keqb_spec kmap cap s Hr) as Hi.
   unfold can_move in Hc.
   destruct (cs_pc s t) as [|[pk|pk|]|pk ch|pk ch|pk ch res|r] eqn:Hpc; try discriminate Hc.
-  - unfold step. rewrite Hpc.
+  - exists (LSecA t). unfold step. rewrite Hpc.
     destruct (sec_lookup keqb kmap (cs_items s) pk) as [[v it']|];
-      [eexists _, _, _; split; reflexivity|].
-    destruct (inflight_get keqb (kmap pk) (cs_inflight s)); eexists _, _, _; split; reflexivity.
-  - unfold step. rewrite Hpc.
-    destruct (sec_remove keqb kmap (cs_items s) pk) as [[it' b] d]. eexists _, _, _; split; reflexivity.
+      [eexists _, _; split; reflexivity|].
+    destruct (inflight_get keqb (kmap pk) (cs_inflight s)); eexists _, _; split; reflexivity.
+  - exists (LSecRemove t). unfold step. rewrite Hpc.
+    destruct (sec_remove keqb kmap (cs_items s) pk) as [[it' b] d]. eexists _, _; split; reflexivity.
   - destruct (sec_clear keqb (cs_items s)) as [[[it' n] d] oof] eqn:Hcl.
     destruct (clear_facts_c keqb keqb_spec cap (cs_items s) it' n d oof (inv_wf _ _ _ _ Hi) Hcl) as [-> _].
-    eexists _, _, _. split; [|reflexivity]. unfold step. rewrite Hpc, Hcl. reflexivity.
-  - eexists _, _, _. split; [|reflexivity]. unfold step. rewrite Hpc, Hc. reflexivity.
-  - unfold step. rewrite Hpc. destruct res as [v|].
+    exists (LSecClear t). unfold step. rewrite Hpc, Hcl. eexists _, _; split; reflexivity.
+  - exists (LWake t). unfold step. rewrite Hpc, Hc. eexists _, _; split; reflexivity.
+  - exists (LSecB t). unfold step. rewrite Hpc. destruct res as [v|].
     + destruct (sec_insert keqb kmap (cs_cap s) (cs_items s) pk v) as [it' d].
-      eexists _, _, _; split; reflexivity.
-    + eexists _, _, _; split; reflexivity.
-  - eexists _, _, _. split; [|reflexivity]. unfold step. rewrite Hpc. reflexivity.
+      eexists _, _; split; reflexivity.
+    + eexists _, _; split; reflexivity.
+  - exists (LReturn t). unfold step. rewrite Hpc. eexists _, _; split; reflexivity.
 Qed.
 
 (* a thread parked on a channel either can wake up (the channel is closed) or the
